@@ -262,7 +262,8 @@ Print Assumptions C06_sim_prologue.
 (* composition: for a statement of the fragment that is linearly well-typed in its (integer) context,
    whose code sits in an image where the definitions' labels and `cleanup` resolve to the code emitted
    for them, the ISA run from a related state ends with exactly the observation of the linear machine -
-   print trace and result, or the undefined operation - whenever the machine's run ends that way *)
+   print trace and result, or the undefined operation - whenever the machine's run ends at all (a
+   linearly well-typed statement of the fragment never gets stuck: progress is part of the proof) *)
 Theorem C06_sim_exec :
   forall (im : image) (p : prog) (sp : Z),
     (forall d, In d (pdefs p) ->
@@ -279,7 +280,7 @@ Theorem C06_sim_exec :
       code_statement x86_backend (ptypes p) s c lc = Ok (code, lc') ->
       code_at im pc code -> labels_at_nh im pc code ->
       rel c e st sp -> outer_ok st sp -> out st = ot ->
-      good (exec_linear fuel p e s ot) -> finishes im pc st (exec_linear fuel p e s ot).
+      snd (exec_linear fuel p e s ot) <> OOutOfFuel -> finishes im pc st (exec_linear fuel p e s ot).
 Proof. exact sim_exec. Qed.
 Print Assumptions C06_sim_exec.
 
@@ -296,21 +297,32 @@ Print Assumptions C06_image_layout.
    integer contexts and bodies made of Substitute / Call / Literal / Op / PrintI64 / IfC / Exit
    (`int_frag`), whose definition names do not start with '#' (`plain_names`: true of every name the
    parser or the pipeline produces), that is linearly well-typed (`lin_check_prog`, C05), for every
-   label-counter start, every argument list and every fuel: if the code the generator emits passes
-   `asm_wf` (labels unique) and the linear machine ends with a result or with an undefined operation,
-   then the ISA run of the emitted code on the same arguments makes the same print calls with the same
-   values and ends the same way (same result; same undefined-operation reason).
+   label-counter start, every argument list of the entry definition's arity and every fuel: if the code
+   the generator emits passes `asm_wf` (labels unique) and the linear machine's run ENDS (anything but
+   out-of-fuel), then the ISA run of the emitted code on the same arguments makes the same print calls
+   with the same values and ends the same way (same result; same undefined-operation reason).
    Missing to the full C06_codegen_correct_statement: the heap statements Let / Switch / Create /
-   Invoke; label uniqueness is a checked hypothesis (asm_wf), not a theorem. *)
+   Invoke; label uniqueness is a checked hypothesis (asm_wf), not a theorem; divergence is not covered. *)
 Theorem C06_codegen_simulates_int :
   forall (p : prog) (lc : N) (cs : list xcode) (n : nat) (lc' : N) (args : list Z) (fuel : nat) (o : obs),
     int_frag p = true -> plain_names p = true -> lin_check_prog p = true ->
     x86_compile p lc = Ok (cs, n, lc') -> asm_wf cs = None ->
-    run_linear fuel p args = o ->
-    ((exists z, snd o = OExit z) \/ (exists w, snd o = OUndef w)) ->
+    List.length args = n ->
+    run_linear fuel p args = o -> snd o <> OOutOfFuel ->
     exists outer inner, fst (run_x86 outer inner cs args) = o.
-Proof. exact x86_codegen_simulates_int. Qed.
+Proof. exact x86_codegen_simulates_int_total. Qed.
 Print Assumptions C06_codegen_simulates_int.
+
+(* the arity hypothesis is needed: with a wrong number of arguments the linear machine refuses to start
+   (OStuck "entry-args"), which no ISA run reports (witness: six arguments for a one-parameter entry) *)
+Theorem C06_codegen_simulates_int_arity_refuted :
+  ~ (forall (p : prog) (lc : N) (cs : list xcode) (n : nat) (lc' : N) (args : list Z) (fuel : nat) (o : obs),
+      int_frag p = true -> plain_names p = true -> lin_check_prog p = true ->
+      x86_compile p lc = Ok (cs, n, lc') -> asm_wf cs = None ->
+      run_linear fuel p args = o -> snd o <> OOutOfFuel ->
+      exists outer inner, fst (run_x86 outer inner cs args) = o).
+Proof. exact ex_arity_needed. Qed.
+Print Assumptions C06_codegen_simulates_int_arity_refuted.
 
 (* the same theorem under the name the partial-statement convention asks for: C06_codegen_correct_statement
    restricted to the integer fragment (missing: Let / Switch / Create / Invoke) *)
